@@ -146,7 +146,10 @@ DENOM_GRID = ["uusdc", "transfer/channel-7/uusdc", "transfer/channel-7/transfer/
               "transfer/channel-7/ibc/ABCDEF", "ibc/27394FB092D2ECCD56123C74F36E4C1F926001CEADA9CA97EA622B25F41E5EB2", "/transfer/channel-7/uusdc",
               "transfer//uusdc", "Transfer/channel-7/uusdc", "transfer/channel-7/UUSDC", "transfer/channel-7/x", "transfer/channel-7/ab", "", "/", "//",
               "other/channel-7/uusdc", "transfer/channel-8/uusdc", "transfer/channel-7/transfer/channel-7/uusdc", "transfer/channel-7/uusdc/",
-              "transfer/channel-7/1usdc", "transfer/channel-7/uus dc"]
+              "transfer/channel-7/1usdc", "transfer/channel-7/uus dc",
+              # the bare prefix, pieces of it, and natives that contain slashes themselves (an empty trace path all the same)
+              "transfer/channel-7", "transfer", "transfer/", "channel-7", "channel-7/uusdc", "transfer/channel-70", "transfer/channel-7/factory/noble1xyz/sub",
+              "transfer/channel-7/gamm/pool/7", "transfer/channel-7/hyperlane/0x1234", "transfer/channel-7/x/y", "transfer/channel-7/x/y/z"]
 
 
 def denom_grid(r, n_random=200):
@@ -230,6 +233,12 @@ def tuned_history(r, n, toks, op="recv", p_admin=15, p_deposit=6, p_query=8, p_r
                         paused_cc.discard((p, c))
             else:
                 lines.append(msg_line("UpdateParams", AUTHORITY, str(r.choice([0, 0, 1, 16, 64, 2 ** 32 - 1]))))
+                if r.chance(1, 3):
+                    # on a branch that is dropped (a simulation, a transaction whose later message failed): sets nothing
+                    lines[-1] = "msgdry" + lines[-1][3:]
+                # transfers whose passthrough lies between the values in play: the limit in force is the committed one
+                for L in r.shuffle([1, 16, 17, 64, 65])[:2]:
+                    lines.append(orb_pkt(op, 1000, cctp_fwd(domain=0, passthrough=b"\x5a" * L)))
         elif k < p_admin + p_deposit:
             lines.append("deposit %s %s %d" % (hx(ORB_BYTES), hx(r.choice(DENOMS + ["stake"])), r.range(1, 10 ** 6)))
         elif k < p_admin + p_deposit + p_query:
